@@ -387,7 +387,9 @@ class ElementNode(XmlNode):
         """
         if qname and not self.context.class_type.is_model(value):
             any_factory = self.context.class_type.any_element
-            value = any_factory(qname=qname, text=converter.serialize(value))
+            var = self.meta.find_wildcard(qname)
+            fmt = var.format if var else None
+            value = any_factory(qname=qname, text=converter.serialize(value, format=fmt))
 
         return value
 
